@@ -87,6 +87,9 @@ def _get_ast_node_variables(node: ast.AST, aliases: Mapping) -> list[Variable]:
         name = aliases.get(name, name)
         if isinstance(node, ast.Call):
             variables.append(Variable(name, roles=["callable"]))
+            if isinstance(node.func, ast.Attribute):
+                # A method call reads the object it is invoked on.
+                todo.append(node.func.value)
             todo.extend(node.args)
             todo.extend(node.keywords)
         else:
